@@ -125,8 +125,14 @@ func (t *throttler) Call() {
     if delta > t.duration { t.waiting = true; t.cond.Broadcast() }
     else if t.trailing && !t.scheduled {
       t.scheduled = true
-      time.AfterFunc(t.duration-delta, func() { lock; t.scheduled = false; if !t.stop { t.waiting = true; t.cond.Broadcast() } })
+      time.AfterFunc(t.duration-delta, t.trail)
     } } }
+func (t *throttler) trail() {            // callback of the trailing timer
+  lock; t.scheduled = false
+  if t.stop || t.waiting { return }
+  if delta := time.Since(t.last); delta < t.duration {   // the timer ran late and a new period has begun
+    t.scheduled = true; time.AfterFunc(t.duration-delta, t.trail); return }
+  t.waiting = true; t.cond.Broadcast() }
 func (t *throttler) Next() bool {
   lock; for !t.waiting && !t.stop { t.cond.Wait() }
   if !t.stop { t.waiting = false; t.last = time.Now() }
@@ -258,5 +264,94 @@ def tstep (cfg : TCfg) (ch : Choice) (s : TState) (e : TEv) : TState :=
   { s2 with n := s2.n + 1 }
 
 def trun (cfg : TCfg) (ch : Choice) (evs : List TEv) : TState := evs.foldl (tstep cfg ch) {}
+
+/-! ### The trailing timer's callback as it is in the code (`trail`)
+
+`fire` above is what `trail` does when it runs exactly at its deadline in a state reached with
+punctual timers: there `waiting = false` and `now - last = duration`, so its two extra tests are
+no-ops (`Theorems/C20Late.lean: trunCode_eq_trun`).  `fireCode` is `trail` statement by statement; the
+driver runs `tstepCode`, and the late-timer system of `lateStep` runs it at ANY instant at or after the deadline. -/
+
+/-- `trail()`: the callback of the trailing timer, run at `s.now` -/
+def fireCode (cfg : TCfg) (ch : Choice) (s : TState) (sc : Sched) : TState :=
+  let s1 := { s with scheduled := none }
+  if s1.stop = true ∨ s1.waiting = true then s1
+  else match s1.last with
+    | none => wake ch s1 (sc.ctime, sc.cepoch)
+    | some l =>
+      if s1.now - l < cfg.dur then
+        { s1 with scheduled := some { deadline := s1.now + (cfg.dur - (s1.now - l)), ctime := sc.ctime, cepoch := sc.cepoch } }
+      else wake ch s1 (sc.ctime, sc.cepoch)
+
+/-- let time pass until `target` with punctual timers; a timer re-armed by `trail` is run again when its new
+deadline falls before `target` (fuel: `trail` re-arms at most once before it grants) -/
+def advanceToCode (cfg : TCfg) (ch : Choice) : Nat → TState → Int → TState
+  | 0, s, target => { s with now := target }
+  | f + 1, s, target =>
+    match s.scheduled with
+    | some sc =>
+      if sc.deadline ≤ target then
+        advanceToCode cfg ch f (fireCode cfg ch { s with now := max s.now sc.deadline } sc) target
+      else { s with now := target }
+    | none => { s with now := target }
+
+def tstepCode (cfg : TCfg) (ch : Choice) (s : TState) (e : TEv) : TState :=
+  let s1 : TState := match e with
+    | .call => tcall cfg ch s
+    | .cancel => tcancel s
+    | .next id => tnext s id
+    | .advance _ => s
+  let s2 := advanceToCode cfg ch 3 s1 (s1.now + e.dt)
+  { s2 with n := s2.n + 1 }
+
+def trunCode (cfg : TCfg) (ch : Choice) (evs : List TEv) : TState := evs.foldl (tstepCode cfg ch) {}
+
+/-! ### Timers that run late
+
+The Go runtime runs a timer's callback at or AFTER its deadline, as late as the scheduler pleases.  `LateEv` is the
+vocabulary of that environment: the throttle's own transitions are the same functions as above (`tcall`, `tnext`,
+`tcancel`, `fireCode`); only the instant at which the callback runs is chosen by the environment (`trail`: it runs
+now, provided a timer is pending and its deadline has been reached; otherwise nothing happens). -/
+
+inductive LateEv where
+  | call
+  | cancel
+  | next (id : Nat)
+  /-- time passes; no callback runs -/
+  | tick (dt : Nat)
+  /-- the runtime runs the pending timer's callback now (enabled only at or after its deadline) -/
+  | trail
+deriving Repr, DecidableEq, Inhabited
+
+def lateStep (cfg : TCfg) (ch : Choice) (s : TState) (e : LateEv) : TState :=
+  let s1 : TState := match e with
+    | .call => tcall cfg ch s
+    | .cancel => tcancel s
+    | .next id => tnext s id
+    | .tick dt => { s with now := s.now + dt }
+    | .trail =>
+      match s.scheduled with
+      | some sc => if sc.deadline ≤ s.now then fireCode cfg ch s sc else s
+      | none => s
+  { s1 with n := s1.n + 1 }
+
+def lateRun (cfg : TCfg) (ch : Choice) (evs : List LateEv) : TState := evs.foldl (lateStep cfg ch) {}
+
+/-- the callback BEFORE the repair (F36): it granted unconditionally -/
+def fireOld (ch : Choice) (s : TState) (sc : Sched) : TState := fire ch s sc
+
+def lateStepOld (cfg : TCfg) (ch : Choice) (s : TState) (e : LateEv) : TState :=
+  let s1 : TState := match e with
+    | .call => tcall cfg ch s
+    | .cancel => tcancel s
+    | .next id => tnext s id
+    | .tick dt => { s with now := s.now + dt }
+    | .trail =>
+      match s.scheduled with
+      | some sc => if sc.deadline ≤ s.now then fireOld ch s sc else s
+      | none => s
+  { s1 with n := s1.n + 1 }
+
+def lateRunOld (cfg : TCfg) (ch : Choice) (evs : List LateEv) : TState := evs.foldl (lateStepOld cfg ch) {}
 
 end GoguVerif.Model.C20
